@@ -1,5 +1,6 @@
 import Driver.Common
 import Parsley.Model.Pipeline
+import Parsley.Spec.Predictor
 namespace Driver.C01
 open Parsley Driver
 
@@ -288,6 +289,231 @@ def fontFamily : List String :=
    "<< /Type /Font /Subtype /Type1 >>", "<< /Type /Font /BaseFont /X >>", "<< /Type /Font /Subtype /Type1 /BaseFont /X /Encoding 6 0 R >>",
    "<< /Type /Font /Subtype /Type1 /BaseFont /X /Encoding /#ff#fe >>", "(not a dictionary)", "5 0 R", "[ ]"]
 
+/-! ### /DecodeParms boundary sweep on every stream the pipeline decodes
+
+  Complete small documents in which ONE stream that the pipeline itself decodes - the page's content stream
+  (alone, or as the first element of a /Contents array), the object stream that holds the catalog and the page
+  tree, or the cross-reference stream - carries FlateDecode (alone, after ASCIIHexDecode, after ASCII85Decode)
+  with a /DecodeParms dictionary from the boundary grid of C07: one of /Predictor /Colors /Columns
+  /BitsPerComponent at a boundary value (absent, 0, 1, 2, 7, 8, 16, 17, negative, 2^31, 2^32+1, 2^62, i64::MAX,
+  i64::MIN, non-integer objects) while the others are sane, plus pairs of boundary values.  The data is the
+  host's natural payload (content operators / object-stream text / cross-reference rows), padded to whole rows
+  and ENCODED by the spec-side predictor (Spec/Predictor.lean) for the nearest sane parameters - so that a sane
+  value gives a document that completes with the predictor reversed in earnest - in five shapes: empty, one byte,
+  one byte short of a row, whole rows, whole rows plus one byte. -/
+
+/-- a spelled /DecodeParms entry -/
+inductive PVal where
+  | absent
+  | int (i : Int)
+  | junk (s : String)          -- a non-integer object (the code falls back to the entry's default)
+
+def PVal.text (key : String) : PVal → String
+  | .absent => ""
+  | .int i => s!"/{key} {i} "
+  | .junk s => s!"/{key} {s} "
+
+/-- the value the data is encoded for: the entry's own value if it is a usable one, the default for an absent
+    or non-integer entry (what the code uses), the fallback `fb` for an unusable integer -/
+def PVal.sane (ok : Int → Bool) (dflt fb : Nat) : PVal → Nat
+  | .absent => dflt
+  | .junk _ => dflt
+  | .int i => if ok i then i.toNat else fb
+
+structure Parms where
+  p : PVal
+  c : PVal
+  n : PVal
+  b : PVal
+
+def Parms.text (q : Parms) : Bytes :=
+  bs ("<< " ++ q.p.text "Predictor" ++ q.c.text "Colors" ++ q.n.text "Columns" ++ q.b.text "BitsPerComponent" ++ ">>")
+
+/-- the boundary values of /Colors /Columns /BitsPerComponent: (usable, unusable) -/
+def parmSane : List PVal := [.absent, .int 1, .int 2, .int 7, .int 8, .int 16, .int 17]
+def parmDegenerate (thorough : Bool) : List PVal :=
+  [.int 0, .int (-1), .int 2147483648, .int 4294967297, .int 4611686018427387904, .int 9223372036854775807,
+   .int (-9223372036854775808), .junk "1.5", .junk "(8)", .junk "[8]", .junk "null", .junk "/N"] ++
+  (if thorough then [.int (-8), .int 3, .int 4, .int 65536, .int 4294967296, .int 2305843009213693952,
+                     .junk "9223372036854775808", .junk "true", .junk "99 0 R", .junk "<< /Columns 4 >>"] else [])
+
+def predictorVals (thorough : Bool) : List PVal :=
+  [.absent, .int 0, .int 1, .int 2, .int 3, .int 9, .int 10, .int 11, .int 12, .int 13, .int 14, .int 15, .int 16,
+   .int (-1), .int 2147483648, .int 4294967297, .int 4611686018427387904, .int 9223372036854775807,
+   .int (-9223372036854775808), .junk "1.5", .junk "(12)", .junk "[12]", .junk "null", .junk "/N"] ++
+  (if thorough then [.int 4, .int 5, .int 17, .int 255, .int 256, .int 4294967298, .int 4294967308, .junk "true", .junk "99 0 R"] else [])
+
+/-- a short list for the pairs -/
+def pairVals (thorough : Bool) : List PVal :=
+  [.int 0, .int (-1), .int 17, .int 9223372036854775807] ++
+  (if thorough then [.absent, .int 4294967297, .int 4611686018427387904, .int (-9223372036854775808), .junk "(8)"] else [])
+
+/-- ASCIIHexDecode / ASCII85Decode encoders (spec side: ISO 32000-1 7.4.2, 7.4.3) -/
+def asciiHexEnc (d : Bytes) : Bytes := bs (hexOfBytes d) ++ bs ">"
+
+def a85Group (g : Bytes) : Bytes :=
+  let k := g.length
+  let v := (g ++ List.replicate (4 - k) (0 : UInt8)).foldl (fun (acc : Nat) (x : UInt8) => acc * 256 + x.toNat) 0
+  if k == 4 && v == 0 then [122]
+  else
+    let ds : List Nat := [v / 52200625 % 85, v / 614125 % 85, v / 7225 % 85, v / 85 % 85, v % 85]
+    (ds.take (k + 1)).map fun x => UInt8.ofNat (x + 33)
+
+def ascii85Enc (d : Bytes) : Bytes :=
+  let rec go : Nat → Bytes → Bytes → Bytes
+    | 0, _, acc => acc
+    | _, [], acc => acc
+    | f + 1, l, acc => go f (l.drop 4) (acc ++ a85Group (l.take 4))
+  go (d.length + 1) d [] ++ bs "~>"
+
+/-- the filter chain in front of the swept FlateDecode: dictionary text and stream data for a zlib stream -/
+def chainWrap (chain : Nat) (parms : Bytes) (z : Bytes) : Bytes × Bytes :=
+  match chain % 3 with
+  | 0 => (bs "/Filter /FlateDecode /DecodeParms " ++ parms, z)
+  | 1 => (bs "/Filter [/ASCIIHexDecode /FlateDecode] /DecodeParms [null " ++ parms ++ bs "]", asciiHexEnc z)
+  | _ => (bs "/Filter [/ASCII85Decode /FlateDecode] /DecodeParms [" ++ parms ++ bs " " ++ parms ++ bs "]", ascii85Enc z)
+
+/-- the five data shapes for encoded rows `enc` of row length `rl` (tag byte included for PNG) -/
+def shapeOf (shape : Nat) (rl : Nat) (enc : Bytes) : Bytes :=
+  match shape with
+  | 0 => []
+  | 1 => enc.take 1
+  | 2 => enc.take (rl - 1)
+  | 3 => enc
+  | _ => enc ++ enc.take 1
+
+/-- the payload encoded for the nearest sane parameters: (row length of the encoded form, encoded rows) -/
+def encodeFor (q : Parms) (fbColumns : Nat) (padByte : UInt8) (payload : Bytes) : Nat × Bytes :=
+  let pInt : Int := match q.p with | .int i => i | _ => 1
+  let tiff := pInt == 2
+  let png := 10 ≤ pInt && pInt ≤ 15
+  let pEff : Nat := if tiff then 2 else if png then (if pInt == 15 then 14 else pInt.toNat) else if pInt == 1 then 1 else 12
+  let colors := q.c.sane (fun i => 1 ≤ i && i ≤ 17) 1 1
+  let columns := q.n.sane (fun i => 1 ≤ i && i ≤ 17) 1 fbColumns
+  let bpc := q.b.sane (fun i => if tiff then i == 8 || i == 16 else i == 1 || i == 2 || i == 4 || i == 8 || i == 16) 8 8
+  let rb := PredSpec.rowBytes columns colors bpc
+  let padded := payload ++ List.replicate ((rb - payload.length % rb) % rb) padByte
+  if pEff == 1 then (rb, padded)
+  else
+    let rows := PredSpec.splitRows rb (padded.length / rb) padded
+    (if pEff == 2 then rb else rb + 1, PredSpec.predict ⟨pEff, colors, columns, bpc⟩ rows)
+
+/-- one-page document whose page has /Contents [4 0 R 8 0 R]; stream 4 carries `extra` -/
+def twoStreamDocX (a aExtra b : Bytes) : Bytes :=
+  assemble hdr
+    [obj 1 (bs "<< /Type /Catalog /Pages 2 0 R >>"),
+     obj 2 (bs "<< /Type /Pages /Kids [3 0 R] /Count 1 >>"),
+     obj 3 (bs "<< /Type /Page /Parent 2 0 R /MediaBox [0 0 612 792] /Contents [4 0 R 8 0 R] /Resources << /Font << /F1 5 0 R >> >> >>"),
+     streamObj 4 aExtra (natStr a.length) a,
+     obj 5 (bs "<< /Type /Font /Subtype /Type1 /BaseFont /Helvetica /FontDescriptor 6 0 R >>"),
+     obj 6 (bs "<< /Type /FontDescriptor /FontName /Helvetica /Flags 32 /FontFile 7 0 R >>"),
+     streamObj 7 [] (bs "3") (bs "abc"),
+     streamObj 8 [] (natStr b.length) b] [] (bs "1 0 R")
+
+/-- the payloads of `xrefStreamDoc`'s object stream and cross-reference stream, with the documents built around
+    ENCODED forms of them: `encO` / `encX` map the payload to (dictionary text, stream data) -/
+def xosDoc (encO encX : Bytes → Bytes × Bytes) : Bytes :=
+  let o1 := bs "<< /Type /Catalog /Pages 2 0 R >>"
+  let o2 := bs "<< /Type /Pages /Kids [3 0 R] /Count 1 >>"
+  let hdrTxt := bs "1 0 2 " ++ natStr (o1.length + 1) ++ bs " "
+  let (oExtra, oData) := encO (hdrTxt ++ o1 ++ bs " " ++ o2)
+  let obj3 := obj 3 (bs "<< /Type /Page /Parent 2 0 R /MediaBox [0 0 612 792] /Contents 4 0 R >>")
+  let obj4 := streamObj 4 [] (natStr textContent.length) textContent
+  let obj10 := streamObj 10 (bs "/Type /ObjStm /N 2 /First " ++ natStr hdrTxt.length ++ bs " " ++ oExtra) (natStr oData.length) oData
+  let off3 := hdr.length
+  let off4 := off3 + obj3.length
+  let off10 := off4 + obj4.length
+  let off11 := off10 + obj10.length
+  let row (t a b : Nat) : Bytes := [UInt8.ofNat t, UInt8.ofNat (a / 256), UInt8.ofNat (a % 256), UInt8.ofNat b]
+  let free : Bytes := row 0 0 255
+  let rows : Bytes := free ++ row 2 10 0 ++ row 2 10 1 ++ row 1 off3 0 ++ row 1 off4 0 ++
+    free ++ free ++ free ++ free ++ free ++ row 1 off10 0 ++ row 1 off11 0
+  let (xExtra, xData) := encX rows
+  let obj11 := streamObj 11 (bs "/Type /XRef /Size 12 /W [1 2 1] /Root 1 0 R " ++ xExtra) (natStr xData.length) xData
+  hdr ++ obj3 ++ obj4 ++ obj10 ++ obj11 ++ bs "startxref\n" ++ natStr off11 ++ bs "\n%%EOF\n"
+
+/-- one document of the sweep: host 0 = the page's content stream, 1 = first element of a /Contents array,
+    2 = the object stream, 3 = the cross-reference stream -/
+def parmDoc (host chain shape : Nat) (q : Parms) : Bytes :=
+  let enc (fbColumns : Nat) (pad : UInt8) (payload : Bytes) : Bytes × Bytes :=
+    let (rl, e) := encodeFor q fbColumns pad payload
+    chainWrap chain q.text (zlibStored (shapeOf shape rl e))
+  let plainS (payload : Bytes) : Bytes × Bytes := ([], payload)
+  match host % 4 with
+  | 0 => let (x, d) := enc 4 32 textContent
+         baseDoc d x none (bs "[3 0 R]") [] [] [] []
+  | 1 => let (x, d) := enc 4 32 textContent
+         twoStreamDocX d x (bs "q Q")
+  | 2 => xosDoc (enc 4 32) plainS
+  | _ => xosDoc plainS (enc 4 0)
+
+def Parms.set (q : Parms) (pos : Nat) (v : PVal) : Parms :=
+  match pos with
+  | 0 => { q with p := v }
+  | 1 => { q with c := v }
+  | 2 => { q with n := v }
+  | _ => { q with b := v }
+
+/-- the sweep.  `k` rotates host (k mod 4) and chain (k / 4 mod 3) where they are not crossed.
+    quick: about 900 documents; thorough: hosts x chains crossed on the one-byte and whole-rows shapes. -/
+def parmSweep (thorough : Bool) (doc : Bytes → IO Unit) : IO Unit := do
+  let mut k := 0
+  let base (pc : Int) : Parms := ⟨.int pc, .int 1, .int 4, .int 8⟩
+  let pcs : List Int := if thorough then [2, 10, 11, 12, 13, 14, 15] else [2, 12]
+  -- (1) /Predictor at its boundary values, the others sane (spelled out, and left to their defaults)
+  for pv in predictorVals thorough do
+    let q := (base 12).set 0 pv
+    for shape in [0, 1, 2, 3, 4] do
+      if thorough && (shape == 1 || shape == 3) then
+        for host in [0, 1, 2, 3] do
+          for chain in [0, 1, 2] do doc (parmDoc host chain shape q)
+      else
+        doc (parmDoc k (k / 4) shape q)
+        k := k + 1
+    doc (parmDoc k (k / 4) 3 ⟨pv, .absent, .absent, .absent⟩)
+    k := k + 1
+  -- (2) one of /Colors /Columns /BitsPerComponent at a boundary value under a TIFF and a PNG predictor
+  for pc in pcs do
+    for pos in [1, 2, 3] do
+      for v in parmSane do
+        let q := (base pc).set pos v
+        for shape in [0, 1, 2, 3, 4] do
+          if thorough && (shape == 1 || shape == 3) then
+            for host in [0, 1, 2, 3] do
+              for chain in [0, 1, 2] do doc (parmDoc host chain shape q)
+          else
+            doc (parmDoc k (k / 4) shape q)
+            k := k + 1
+      for v in parmDegenerate thorough do
+        let q := (base pc).set pos v
+        for shape in [0, 1, 2, 4] do
+          if thorough && shape == 1 then
+            for host in [0, 1, 2, 3] do
+              for chain in [0, 1, 2] do doc (parmDoc host chain shape q)
+          else if !thorough && shape ≥ 2 then pure ()
+          else
+            doc (parmDoc k (k / 4) shape q)
+            k := k + 1
+        -- non-empty data for the fallback geometry: on every host
+        for host in [0, 1, 2, 3] do
+          if thorough then
+            for chain in [0, 1, 2] do doc (parmDoc host chain 3 q)
+          else
+            doc (parmDoc host k 3 q)
+            k := k + 1
+  -- (3) pairs of boundary values
+  for pc in pcs do
+    for (i, j) in [(1, 2), (1, 3), (2, 3)] do
+      for a in pairVals thorough do
+        for b in pairVals thorough do
+          doc (parmDoc k (k / 4) 3 (((base pc).set i a).set j b))
+          k := k + 1
+  for pv in ([.int 0, .int 15, .int 16, .int (-1)] ++ (if thorough then [.int 3, .int 9, .int 9223372036854775807, .junk "(2)"] else []) : List PVal) do
+    for pos in [1, 2, 3] do
+      for b in pairVals thorough do
+        doc (parmDoc k (k / 4) 3 (((base 12).set 0 pv).set pos b))
+        k := k + 1
+
 def gen (seed n : Nat) (tier : String) (emit : String → IO Unit) : IO Unit := do
   let doc := fun (b : Bytes) => emit s!"doc {hexOfBytes b}"
   -- fixed scenarios
@@ -309,6 +535,7 @@ def gen (seed n : Nat) (tier : String) (emit : String → IO Unit) : IO Unit := 
     let data := zlibStored ([1, 1, 2, 3, 4, 2, 1, 1, 1, 1] ++ textContent)
     doc (baseDoc data (bs "/Filter /FlateDecode /DecodeParms << " ++ bs pp ++ bs " >>") none (bs "[3 0 R]") [] [] [] [])
     doc (baseDoc data (bs "/Filter [/FlateDecode] /DecodeParms [<< " ++ bs pp ++ bs " >>]") none (bs "[3 0 R]") [] [] [] [])
+  parmSweep (tier == "thorough") doc
   doc (baseDoc (zlibStored textContent) (bs "/Filter /FlateDecode") none (bs "[3 0 R]") [] [] [] [])
   doc (baseDoc (bs "<424420> ") (bs "/Filter [/ASCIIHexDecode /ASCII85Decode /FlateDecode]") none (bs "[3 0 R]") [] [] [] [])
   doc (baseDoc (bs "zzzz87cURD]i,\"Ebo80~>") (bs "/Filter /ASCII85Decode") none (bs "[3 0 R]") [] [] [] [])
